@@ -61,6 +61,7 @@ class KDQTreePartitioner:
             int(self.cutpoint_proportion_lbound * np.ptp(data[:, axis]))
             for axis in range(num_cols)
         ]
+        self.leaves = []
         self.node = KDQTreeNode.build(
             data, self.count_ubound, min_cutpoint_sizes, self.leaves
         )
